@@ -375,6 +375,11 @@ example : exTree.leaves.Nodup ∧ AtomLeaves exTree := by
   intro x hx
   simp [exTree, Tree.leaves] at hx
   rcases hx with rfl | rfl | rfl <;> exact ⟨_, rfl⟩
+/-- the two builders of the model produce trees over exactly the given leaves -/
+example : (buildBalanced (HTerm.atom 0) 8 [.atom 1, .atom 2, .atom 3, .atom 4, .atom 5]).leaves =
+    [.atom 1, .atom 2, .atom 3, .atom 4, .atom 5] := by decide
+example : (buildComb (HTerm.atom 0) [.atom 1, .atom 2, .atom 3]).proofWith (chp (freeOps exGt)) [true, true] =
+    some (.atom 3, [.atom 2, .atom 1]) := by decide
 /-- a distributor history: claim index 1 (valid), claim it again (refused), change the root -/
 example :
     let d0 : Dist HTerm := Dist.empty.setRoot (exTree.rootS (freeOps exGt))
